@@ -216,7 +216,8 @@ def run_case(doc: dict) -> dict:
     last_plan = None
     for pi, plan in enumerate(plans):
         last_plan = plan
-        faults = [{"kind": "raise", "node": n, "inv": i, "when": "before" if (pi + fi) % 2 == 0 else "after", "fid": fi} for fi, (n, i) in enumerate(plan)]
+        kinds = ["plain", "noargs", "typeerror_kw", "keyerror"]
+        faults = [{"kind": "raise", "node": n, "inv": i, "when": "before" if (pi + fi) % 2 == 0 else "after", "fid": fi, "exc": kinds[(pi + fi + doc["pair_seed"]) % 4]} for fi, (n, i) in enumerate(plan)]
         fids = list(range(len(plan)))
         failing_nodes = [n for n, _ in plan]
         cfgs = doc["async"]
@@ -288,6 +289,7 @@ def _top_map(doc, g, values, points, rng, res, rts, viol, kw0) -> None:
         v[mp] = list(items)
         return v
 
+    sync_items = None
     for mode, cfg in (("sync", None), ("async", doc["async"][0])):
         for eh in ("raise", "continue"):
             faults = [{"kind": "raise", "node": n, "inv": i, "fid": 0, "when": "before"}]
@@ -313,6 +315,17 @@ def _top_map(doc, g, values, points, rng, res, rts, viol, kw0) -> None:
                 if out["status"] != "list":
                     viol.append((f"{label}:map_continue_did_not_return_results", {"status": out["status"], "error": out["error"]}))
                     continue
+                # partial values of failed items: what the sync map reports for item i is reported by the async map as well
+                if mode == "sync":
+                    sync_items = out["items"]
+                elif sync_items is not None and len(sync_items) == len(out["items"]):
+                    for ix, (si, ai) in enumerate(zip(sync_items, out["items"])):
+                        if si["status"] == "failed" and ai["status"] == "failed":
+                            sv, av = si["values"] or {}, ai["values"] or {}
+                            lost = {k: v for k, v in sv.items() if k not in av or canon(av[k]) != canon(v)}
+                            if lost:
+                                viol.append((f"{label}:failed_map_item_lost_completed_values", {"item": ix, "sync_item_values": sv, "async_item_values": av}))
+                                break
                 failed = [it for it in out["items"] if it["status"] == "failed"]
                 if not failed:
                     viol.append((f"{label}:no_failed_item_although_fault_fired", {}))
